@@ -31,7 +31,7 @@ m = {
     "version": 1,
     "setup_cmd": "bin/vsetup",
     "hooks": {"guard": "verif", "enable": "no hooks live in /repo: every check copies /repo's working tree to a scratch dir, rewrites it mechanically with cmd/siminstr, adds simrt/simdb/harness files and builds with `go1.26.8 test -c -tags verif`",
-              "baseline_off_cmd": "cd /repo && go test -vet=off -count=1 ./server/...", "source_commits": [], "add_only": True},
+              "baseline_off_cmd": "cd /repo/server && go test -vet=off -count=1 . ./store/... ./drafty/... ./ringhash/... ./db/common/...", "source_commits": [], "add_only": True},
     "engines": [{"name": n, "path": ENG[n][0], "serves_properties": sorted(v), "kind_free_text": ENG[n][1]} for n, v in sorted(engines.items())],
     "checks": checks,
     "notes": "See DESIGN.md. Repaired defects and known findings: known-findings.txt. Replays of repaired defects: findings/.",
